@@ -165,3 +165,28 @@ def check_enumeration(spec, cls_desc, upto, mech="C01:wrong-count"):
             if c != v:
                 cx.violation(mech, f"count_objects_of_size({n},{p})={c}, truth {v}", {"n": n})
     return True
+
+
+def moving_paths(spec):
+    """Number of equivalence paths of the specification with >= 2 steps of which one that
+    is not the last changes the object (a letter symmetry, forwards or backwards): there
+    the composition order of the steps' object maps matters."""
+    from comb_spec_searcher.strategies.rule import EquivalencePathRule
+
+    from vuniv.words import LetterSym
+
+    def moving(r):
+        seen = 0
+        while r is not None and seen < 4:
+            if isinstance(getattr(r, "strategy", None), LetterSym):
+                return True
+            r = getattr(r, "original_rule", None)
+            seen += 1
+        return False
+
+    k = 0
+    for rule in spec.rules_dict.values():
+        if isinstance(rule, EquivalencePathRule) and len(rule.rules) >= 2:
+            if any(moving(r) for r in rule.rules[:-1]):
+                k += 1
+    return k
